@@ -962,8 +962,10 @@ fn compile_string_case(
         })
         .collect();
 
+    // String literals never cover the type: without a catch-all row the value that matches no
+    // arm must fail like every other unmatched value instead of leaving the switch silently.
     let default = if default_rows.is_empty() {
-        None
+        Some(Box::new(emissing(ty)))
     } else {
         Some(Box::new(compile_rows(
             genv,
